@@ -19,8 +19,7 @@ recursive call; running out of fuel is the distinguished error `Err.fuel` (never
 value).  The drivers use a fuel far above what the bounded programs of the quantifier need and
 treat `Err.fuel` as "check machinery broken", not as a result.
 
-Anything the fragment does not define (string * int, list + list, non-string map keys, `break`
-inside a capture, unknown filters, …) is the distinguished error `Err.outOfFragment`.
+Anything the fragment does not define (list + list, list * int, non-string map keys, …) is the distinguished error `Err.outOfFragment`.
 
 Integers are `Int` with the i128 window of the implementation: a result outside
 `[-2^127, 2^127)` is `Err.invalidOp`.
@@ -803,7 +802,8 @@ def exec : Nat → Scope → List Nat → State → Stmt → Res (State × Flow)
         let v ← applyFilters fuel ctx σ1.heap stack (.str σ1.out) filters
         let cell ← topCell stack
         .ok ({ heap := heapSet σ1.heap cell x v, out := σ.out }, .normal)
-      | _ => .error .outOfFragment
+      -- `break` / `continue` inside the block: the capture is dropped, nothing is assigned
+      | (σ1, fl) => .ok ({ heap := σ1.heap, out := σ.out }, fl)
     | .withS binds body => do
       let cell := σ.heap.length
       let heap1 ← bindWith fuel ctx (σ.heap ++ [[]]) (cell :: stack) binds
@@ -815,7 +815,7 @@ def exec : Nat → Scope → List Nat → State → Stmt → Res (State × Flow)
       | (σ1, .normal) => do
         let v ← applyFilters fuel ctx σ1.heap stack (.str σ1.out) filters
         .ok ({ heap := σ1.heap, out := σ.out ++ render v }, .normal)
-      | _ => .error .outOfFragment
+      | (σ1, fl) => .ok ({ heap := σ1.heap, out := σ.out }, fl)
     | .macroS name params defaults body usesCaller => do
       let cell ← topCell stack
       let m := Val.macro name params defaults body usesCaller stack
